@@ -260,8 +260,12 @@ class Flow:
             self.env[name] = new
             self.ev('reset', node, name=name, value=value_rf, old=old, new=new)
         elif isinstance(target, (ast.Subscript, ast.Attribute)):
-            # keep raw subscript target (no broadcast erasure needed for stores)
-            trf = self.expr(target)
+            # a store target denotes a location: never distribute the index
+            self.conv.no_distribute = True
+            try:
+                trf = self.expr(target)
+            finally:
+                self.conv.no_distribute = False
             self.ev('store', node, target=trf, target_ast=target, op=op,
                     value=value_rf)
             d = dotted(target)
